@@ -394,6 +394,37 @@ func buildJavaTree(c *run.Ctx, o *run.Outcome, dir string) (root string, ok bool
 		write("StoreClient", sb.String())
 		o.Count("projects_with_an_override_chain_of_3+_levels", 1)
 	}
+	// a hub class that calls 11-16 project classes, some of which call one another (connected-call findings)
+	if r.Chance(2, 3) {
+		nHub := r.Range(11, 16)
+		write := func(name, text string) {
+			path := filepath.Join(dir, "hub", name+".java")
+			os.MkdirAll(filepath.Dir(path), 0o755)
+			ioutil.WriteFile(path, []byte("package com.acme.hub;\n\n"+text), 0o644)
+		}
+		var hub strings.Builder
+		hub.WriteString("public class Hub {\n")
+		for i := 0; i < nHub; i++ {
+			hub.WriteString(fmt.Sprintf("    private Spoke%d s%d;\n", i, i))
+		}
+		hub.WriteString("    public void run() {\n")
+		for _, i := range r.Perm(nHub) {
+			hub.WriteString(fmt.Sprintf("        s%d.work%d();\n", i, i))
+		}
+		hub.WriteString("    }\n}\n")
+		write("Hub", hub.String())
+		for i := 0; i < nHub; i++ {
+			body := ""
+			if r.Chance(1, 2) {
+				j := r.Intn(nHub)
+				body = fmt.Sprintf("        next.work%d();\n", j)
+				write(fmt.Sprintf("Spoke%d", i), fmt.Sprintf("public class Spoke%d {\n    private Spoke%d next;\n    public void work%d() {\n%s    }\n}\n", i, j, i, body))
+			} else {
+				write(fmt.Sprintf("Spoke%d", i), fmt.Sprintf("public class Spoke%d {\n    public void work%d() { }\n}\n", i, i))
+			}
+		}
+		o.Count("projects_with_a_class_of_fan_out_above_10", 1)
+	}
 	// a generated-looking class with 70-110 methods of pairwise different parameter counts (6..): one sized bad-smell
 	// kind with many findings whose sizes are untied, written in shuffled order (`bs -s type` must order them all)
 	if r.Chance(2, 3) {
@@ -415,6 +446,25 @@ func buildJavaTree(c *run.Ctx, o *run.Outcome, dir string) (root string, ok bool
 		os.MkdirAll(filepath.Dir(path), 0o755)
 		ioutil.WriteFile(path, []byte(sb.String()), 0o644)
 		o.Count("projects_with_a_sized_smell_kind_of_70+_untied_findings", 1)
+	}
+	// tests that call other tests whose assertion comes through a helper (chains of 3-5)
+	if r.Chance(2, 3) {
+		var sb strings.Builder
+		sb.WriteString("package tbs.chain;\n\nimport org.junit.Test;\nimport static org.junit.Assert.assertEquals;\n\npublic class ChainTest {\n")
+		nChain := r.Range(3, 5)
+		order := r.Perm(nChain)
+		for _, k := range order {
+			if k == 0 {
+				sb.WriteString("    @Test\n    public void step0() {\n        check(1);\n    }\n")
+			} else {
+				sb.WriteString(fmt.Sprintf("    @Test\n    public void step%d() {\n        step%d();\n    }\n", k, k-1))
+			}
+		}
+		sb.WriteString("    private void check(int v) {\n        assertEquals(1, v);\n    }\n}\n")
+		path := filepath.Join(dir, "tests", "src", "test", "java", "tbs", "chain", "ChainTest.java")
+		os.MkdirAll(filepath.Dir(path), 0o755)
+		ioutil.WriteFile(path, []byte(sb.String()), 0o644)
+		o.Count("projects_with_tests_calling_tests", 1)
 	}
 	tt := testsmellgen.Generate(r.Fork())
 	for _, f := range tt.Files {
